@@ -682,8 +682,9 @@ void scheduleFrom(Thr *self)
       pick = recordPoint(self && !self->done ? self->op : OP_NONE, self ? self->id : 255, nopt, costs);
       if (S.verbose)
       {
-        fprintf(stdout, "  point#%u by T%d(%s) t=%.6f options:", S.npoints - 1, self ? self->id : -1, self ? opName(self->op) : "-",
-                S.monoNs / 1e9);
+        fprintf(stdout, "  point#%u by T%d(%s%s%s) t=%.6f options:", S.npoints - 1, self ? self->id : -1, self ? opName(self->op) : "-",
+                (self && (self->op == OP_USER || self->op == OP_EXT_BLOCKED) && self->extWhat) ? ":" : "",
+                (self && (self->op == OP_USER || self->op == OP_EXT_BLOCKED) && self->extWhat) ? self->extWhat : "", S.monoNs / 1e9);
         for (int i = 0; i < ne; ++i)
           fprintf(stdout, " T%d:%s", en[i], opName(S.thr[en[i]]->op));
         if (timeOpt)
